@@ -2,28 +2,28 @@
 # confirm a seeded change in the seeding agent's own (already built) worktree:
 #  tests still pass with the change, demo fails with it and passes without it.
 # usage: tools/confirm_seed.sh C02   -> writes /verif/seeded/C02/{patch.diff,demo/,meta.json,confirm.json}
-ID=$1; WT=/tmp/seed_$ID; OUT=/tmp/seedwork_$ID/out; DST=/verif/seeded/$ID
+ID=$1; W=${2:-}; SFX=""; [ "$W" = "2" ] && SFX=b; [ "$W" = "3" ] && SFX=c; WT=/tmp/seed${W}_$ID; OUT=/tmp/seedwork${W}_$ID/out; DST=/verif/seeded/$ID$SFX
 set -u
 [ -f $OUT/patch.diff ] || { echo "no patch"; exit 2; }
 cd $WT || exit 2
 # make sure the change is applied
 git apply --check -R $OUT/patch.diff 2>/dev/null || git apply $OUT/patch.diff || { echo "patch state unclear"; exit 2; }
-cmake --build _build -j8 > /tmp/seedwork_$ID/confirm_build1.log 2>&1 || { echo "build with change failed"; exit 2; }
-ctest --test-dir _build -j8 --timeout 900 > /tmp/seedwork_$ID/confirm_ctest.log 2>&1
-PASSED=$(grep -c " Passed" /tmp/seedwork_$ID/confirm_ctest.log)
-FAILED=$(grep "Failed\|Not Run\|Timeout" /tmp/seedwork_$ID/confirm_ctest.log | grep -v memory_test | grep -c "^\s*[0-9]* - ")
-bash $OUT/demo/run.sh $WT > /tmp/seedwork_$ID/confirm_demo_with.log 2>&1; RC_WITH=$?
+cmake --build _build -j8 > $OUT/../confirm_build1.log 2>&1 || { echo "build with change failed"; exit 2; }
+ctest --test-dir _build -j8 --timeout 900 > $OUT/../confirm_ctest.log 2>&1
+PASSED=$(grep -c " Passed" $OUT/../confirm_ctest.log)
+FAILED=$(grep "Failed\|Not Run\|Timeout" $OUT/../confirm_ctest.log | grep -v memory_test | grep -c "^\s*[0-9]* - ")
+bash $OUT/demo/run.sh $WT > $OUT/../confirm_demo_with.log 2>&1; RC_WITH=$?
 git apply -R $OUT/patch.diff || exit 2
-cmake --build _build -j8 > /tmp/seedwork_$ID/confirm_build2.log 2>&1
-bash $OUT/demo/run.sh $WT > /tmp/seedwork_$ID/confirm_demo_without.log 2>&1; RC_WITHOUT=$?
+cmake --build _build -j8 > $OUT/../confirm_build2.log 2>&1
+bash $OUT/demo/run.sh $WT > $OUT/../confirm_demo_without.log 2>&1; RC_WITHOUT=$?
 git apply $OUT/patch.diff
 mkdir -p $DST; rm -rf $DST/demo; cp -r $OUT/patch.diff $OUT/demo $DST/; cp $OUT/meta.json $DST/meta.json
 APPLIES=no; git -C /repo apply --check $OUT/patch.diff 2>/dev/null && APPLIES=yes
 cat > $DST/confirm.json <<EOT
 {"property": "$ID", "tests_passed_with_change": $PASSED, "non_memory_tests_failed_with_change": $FAILED,
  "demo_rc_with_change": $RC_WITH, "demo_rc_without_change": $RC_WITHOUT,
- "demo_tail_with_change": $(tail -3 /tmp/seedwork_$ID/confirm_demo_with.log | python3 -c 'import json,sys; print(json.dumps(sys.stdin.read()))'),
- "demo_tail_without_change": $(tail -3 /tmp/seedwork_$ID/confirm_demo_without.log | python3 -c 'import json,sys; print(json.dumps(sys.stdin.read()))'),
+ "demo_tail_with_change": $(tail -3 $OUT/../confirm_demo_with.log | python3 -c 'import json,sys; print(json.dumps(sys.stdin.read()))'),
+ "demo_tail_without_change": $(tail -3 $OUT/../confirm_demo_without.log | python3 -c 'import json,sys; print(json.dumps(sys.stdin.read()))'),
  "applies_to_current_repo_head": "$APPLIES", "repo_head": "$(git -C /repo rev-parse --short HEAD)"}
 EOT
 cat $DST/confirm.json
